@@ -583,6 +583,79 @@ func (x *extras) indexReuse() {
 		life(3, rv2, b.Build(), d3, lmap3, ord[:k])
 		c.Probe("index_reused_for_a_shorter_history")
 	}
+	// sixth life: two databases holding the same events, indexed in two different parents-first orders (fork
+	// branches get their numbers in order of arrival), and the same index object switching from one to the other:
+	// after the switch every answer comes from the database it was reset onto, not from what it remembers
+	if len(ord) <= 90 {
+		perm := func(tag uint64) []int {
+			done := map[int]bool{}
+			var order []int
+			for len(order) < len(ord) {
+				var ready []int
+				for _, g := range ord {
+					if done[g] {
+						continue
+					}
+					ok := true
+					for _, p := range cl.parentsG(cl.pool[g]) {
+						if !done[p] {
+							ok = false
+						}
+					}
+					if ok {
+						ready = append(ready, g)
+					}
+				}
+				g := ready[sim.Mix(seed, tag, uint64(len(order)))%uint64(len(ready))]
+				done[g] = true
+				order = append(order, g)
+			}
+			return order
+		}
+		func() {
+			defer func() {
+				if r := recover(); r != nil {
+					if cp, ok := r.(critPanic); ok {
+						c.Violation("crit", "crit:"+critSig(cp.err.Error()), "direct index drive (two databases): %v", cp.err)
+					}
+					panic(r)
+				}
+			}()
+			dbA, dbB := memorydb.New(), memorydb.New()
+			for i, db := range []kvdb.Store{dbA, dbB} {
+				index.Reset(er.PV, db, getEvent)
+				for _, g := range perm(uint64(21 + i)) {
+					if err := index.Add(cl.pool[g].Ev); err != nil {
+						c.Violation("index-add-error", "index-add-error", "direct index drive (two databases): Add(%s) = %v", cl.descEv(cl.pool[g]), err)
+					}
+					index.Flush()
+				}
+			}
+			index.Reset(er.PV, dbA, getEvent)
+			for _, ga := range ord {
+				a := cl.pool[ga]
+				if cl.on["clock"] {
+					m := index.GetMergedHighestBefore(a.Ev.ID())
+					for ci, id := range er.RV.IDs {
+						ws, wf := er.D.HighestSeq(a.L, ci)
+						gv := m.Get(er.PV.GetIdx(idx.ValidatorID(id)))
+						if gv.IsForkDetected() != wf || (!wf && uint32(gv.Seq) != ws) {
+							c.Violation("merged-clock", "merged-clock/direct-index", "direct index drive, index object reset onto a database that holds the events already (it served another database with the same events before): merged clock of %s for validator %d: fork=%v seq=%d, definition fork=%v seq=%d", cl.descEv(a), id, gv.IsForkDetected(), gv.Seq, wf, ws)
+						}
+					}
+				}
+				if cl.on["fc"] && len(ord) <= 45 {
+					for _, gb := range ord {
+						bb := cl.pool[gb]
+						if got, want := index.ForklessCause(a.Ev.ID(), bb.Ev.ID()), er.D.ForklessCause(a.L, bb.L); got != want {
+							c.Violation("forkless-cause", "forkless-cause/direct-index", "direct index drive, index object reset onto a database that holds the events already: ForklessCause(A=%s, B=%s) = %v, graph definition says %v", cl.descEv(a), cl.descEv(bb), got, want)
+						}
+					}
+				}
+			}
+			c.Probe("index_switched_between_two_databases_with_the_same_events")
+		}()
+	}
 	// fourth and fifth life: two histories that continue differently after a common part (the two sides of a
 	// fork, each without the other side and its descendants): events with the same creator and sequence number
 	// but different ancestry are indexed by the same object one history after the other
@@ -669,6 +742,17 @@ func (x *extras) indexReuse() {
 					if cl.on["fc"] && got != want {
 						c.Violation("forkless-cause", "forkless-cause/direct-index", "direct index drive, %s (weights %v): ForklessCause(A=%s, B=%s) = %v, graph definition says %v",
 							what, rv2.W, cl.descEv(a), cl.descEv(bb), got, want)
+					}
+				}
+				if cl.on["clock"] {
+					a := cl.pool[ga]
+					m := index.GetMergedHighestBefore(a.Ev.ID())
+					for ci, id := range rv2.IDs {
+						ws, wf := dd.HighestSeq(lm[a.L], ci)
+						gv := m.Get(pv2.GetIdx(idx.ValidatorID(id)))
+						if gv.IsForkDetected() != wf || (!wf && uint32(gv.Seq) != ws) {
+							c.Violation("merged-clock", "merged-clock/direct-index", "direct index drive, %s: merged clock of %s for validator %d: fork=%v seq=%d, definition fork=%v seq=%d", what, cl.descEv(a), id, gv.IsForkDetected(), gv.Seq, wf, ws)
+						}
 					}
 				}
 			}
